@@ -52,7 +52,14 @@ THEOREMS = [
     "XalanModel.Props.C04.attr_roundtrip",
     "XalanModel.Props.C04.content_forbidden_is_error",
     "XalanModel.Props.C04.attr_forbidden_is_error",
+    "XalanModel.Props.C04.content_output_implies_wellformed",
     "XalanModel.Props.C04.content_nonchar_counterexample",
+    "XalanModel.Props.C04.generated_fixes_consistent",
+    "XalanModel.Props.C04.repairs_on_witnesses",
+    "XalanModel.Props.C04.document_structure",
+    "XalanModel.Props.C04.comment_roundtrip",
+    "XalanModel.Props.C04.comment_repair_wellformed",
+    "XalanModel.Props.C04.pi_repair_wellformed",
     "XalanModel.Props.C04.generated_tables_sound",
     "XalanModel.Props.C04.generated_cdata_is_known_variant",
     "XalanModel.Props.C04.cdata_unbalanced_counterexample",
@@ -360,6 +367,7 @@ def run(ctx):
             # the legacy serializer is run on the four classic encodings only (its maximum-character table does not
             # know UTF-32 and it escapes everything above 0x7F there, also inside comments and names)
             cases.append(("L", enc, ver, legacy_safe(doc), "gen"))
+    repair_correspondence(ctx, model, work, r)
     cases += boundary_cases(ctx.thorough)
     if ctx.thorough:
         cases += exhaustive_cases()
@@ -430,6 +438,58 @@ def run(ctx):
                "correspondence", agree, json.dumps(disagreements)[:1800])
     ctx.oblige("harness exits cleanly", "correspondence", irc == 0 or len(il) < len(lines), ierr[-1200:])
     ctx.exhaustive = False
+
+
+def repair_correspondence(ctx, model, work, r):
+    """ElemComment / ElemPI data repair: the real `Xalan` CLI on one generated stylesheet with many xsl:comment and
+    xsl:processing-instruction instructions, against `repairComment` / `repairPI` of the model."""
+    import itertools
+    strings = []
+    if ctx.thorough:
+        for n in range(0, 6):
+            for t in itertools.product("-?>a", repeat=n):
+                strings.append("".join(t))
+    else:
+        for n in range(0, 4):
+            for t in itertools.product("-?>a", repeat=n):
+                strings.append("".join(t))
+        for _ in range(200):
+            strings.append("".join(r.choice("--??>>a b") for _ in range(r.range(0, 9))))
+    esc = lambda t: t.replace("&", "&amp;").replace("<", "&lt;").replace(">", "&gt;")
+    body = "".join('<xsl:comment><xsl:text>%s</xsl:text></xsl:comment><xsl:processing-instruction name="p"><xsl:text>%s</xsl:text>'
+                   '</xsl:processing-instruction>\n' % (esc(t), esc(t)) for t in strings)
+    xsl = ('<?xml version="1.0"?><xsl:stylesheet version="1.0" xmlns:xsl="http://www.w3.org/1999/XSL/Transform">'
+           '<xsl:output method="xml" encoding="UTF-8"/><xsl:template match="/"><r>' + body + '</r></xsl:template></xsl:stylesheet>')
+    xp, sp = os.path.join(work, "c04_repair.xml"), os.path.join(work, "c04_repair.xsl")
+    open(xp, "w").write("<d/>")
+    open(sp, "w").write(xsl)
+    cli = os.path.join(common.build_dir("hooks"), "src", "xalanc", "Xalan")
+    rc, out = common.sh([cli, xp, sp], timeout=300)
+    got_c = re.findall(r"<!--(.*?)-->", out, re.S)
+    got_p = re.findall(r"<\?p(.*?)\?>", out, re.S)
+    req = os.path.join(work, "c04_repair.req")
+    with open(req, "w") as f:
+        for t in strings:
+            f.write("repairc %s\nrepairp %s\n" % (G.hx(G.u(t)), G.hx(G.u(t))))
+    p = subprocess.run([model], stdin=open(req, "rb"), stdout=subprocess.PIPE)
+    ml = p.stdout.decode().split("\n")
+    bad = []
+    ok = rc == 0 and len(got_c) == len(strings) and len(got_p) == len(strings)
+    if ok:
+        for k, t in enumerate(strings):
+            mc = "".join(chr(x) for x in G.unhx(ml[2 * k]))
+            mp = "".join(chr(x) for x in G.unhx(ml[2 * k + 1]))
+            raw_p = ("" if (not mp or mp[0] in " \t\r\n") else " ") + mp
+            ctx.case(nontrivial_key="repair:" + t if ("--" in t or t.endswith("-") or "?>" in t) else None, cls="repair")
+            if got_c[k] != mc or got_p[k] != raw_p:
+                bad.append({"data": t, "comment": got_c[k], "model_comment": mc, "pi": got_p[k], "model_pi": raw_p})
+            # the property itself, on the implementation's output
+            if "--" in got_c[k] or got_c[k].endswith("-"):
+                ctx.fail("repair.comment-not-wellformed: %r" % t, "xsl:comment data %r written as %r" % (t, got_c[k]), t)
+            if got_c[k].replace(" ", "") != t.replace(" ", "") or got_p[k].replace(" ", "") != t.replace(" ", ""):
+                ctx.fail("repair.data-changed: %r" % t, "comment %r / PI %r for data %r" % (got_c[k], got_p[k], t), t)
+    ctx.oblige("correspondence: ElemComment/ElemPI repair through the Xalan CLI = repairComment/repairPI on %d strings" % len(strings),
+               "correspondence", ok and not bad, ("rc=%d comments=%d pis=%d " % (rc, len(got_c), len(got_p))) + json.dumps(bad[:3]) + out[-300:] if not (ok and not bad) else "")
 
 
 def boundary_cases(thorough):
